@@ -1966,6 +1966,18 @@ class Interp(object):
                 if op is ast.Add:
                     return r
                 return Opaque('-np.inf' if r.desc == 'np.inf' else 'np.inf')
+        # an infinity times / divided by a non-zero constant is an infinity
+        if op in (ast.Mult, ast.Div):
+            inf_ = ('np.inf', '-np.inf')
+            for a_, b_ in ((l, r), (r, l)):
+                if isinstance(a_, Opaque) and a_.desc in inf_ and \
+                        is_scalar(b_) and not isinstance(b_, Opaque) and \
+                        to_rat(b_).is_const() and (a_ is l or op is ast.Mult):
+                    c_ = to_rat(b_).constant()
+                    if c_ == 0:
+                        return Opaque('np.nan')
+                    pos = (c_ > 0) == (a_.desc == 'np.inf')
+                    return Opaque('np.inf' if pos else '-np.inf')
         if (isinstance(l, Opaque) and (is_scalar(r) or isinstance(
                 r, Opaque))) or (isinstance(r, Opaque) and is_scalar(l)):
             if not ((isinstance(l, Opaque) and l.desc == 'np.nan') or (
